@@ -27,7 +27,8 @@
 //            events "auxdup i" / "auxmiss i")
 // events: "<actor> c <op..>" call, "<actor> r <op> [val]" return, "<actor> xc <rv> <found>" cancel
 //   function ran, "<actor> pc <rv> <found>" provider completion test-and-remove, "T cb <result>"
-//   callback entered, "T ce <result>" callback about to resubmit/return, "<actor> adv <ms>";
+//   callback entered, "T ce <result>" callback about to resubmit/return, "<actor> adv <ms>",
+//   "M idle" the main loop got the baton back: every other thread is blocked;
 //   every event ends with "@<virtual ms since run start>".
 #include <nng/nng.h>
 
@@ -506,6 +507,9 @@ run_case(uint64_t seed, int policy, int doff, int dlen)
 		if (all_done()) {
 			break;
 		}
+		// every other thread (actors, expire, task threads) is blocked: whatever was due at the
+		// current virtual time has happened (the monitor's clause "timer liveness")
+		evt("idle");
 		if (it % 16 == 15 && aio_live && !freeing) {
 			// rescue: an operation nobody completes; cancel it so the case terminates
 			evt("c abt 98");
